@@ -144,8 +144,11 @@ impl Prop for C11 {
 
     fn gen(&self, seed: u64, idx: u64, tier: Tier) -> Case {
         let mut rng = Rng::new(seed);
-        let max_s = if tier == Tier::Thorough { 24 } else { 12 };
-        let mut p = CallSetParams::standard(max_s, 12);
+        // one case in forty is a long history (up to 1,600 records, few samples): batching, caching
+        // and flushing thresholds inside the accumulation loop lie far beyond a dozen sites
+        let long = idx % 40 == 39 && idx % 16 != 15;
+        let max_s = if long { 6 } else if tier == Tier::Thorough { 24 } else { 12 };
+        let mut p = CallSetParams::standard(max_s, if long { 1600 } else { 12 });
         p.allow_ploidy = true;
         p.allow_no_gt = true;
         p.kind_w = [4, 3, 2, 3, 1, 1, 3, 3, 1, 1, 3, 2, 2, 3];
@@ -320,7 +323,12 @@ impl Prop for C11 {
                     out.steps += 3 * recs.len() as u64;
                     if let (Res::Ok(w), Res::Ok(a), Res::Ok(b), Res::Ok(pr)) = (&whole, &a, &b, &pr) {
                         out.count("additivity_checked", 1);
-                        let tol = if proj { 1e-9 } else { 0.0 };
+                        // projected cells are sums of floats added in a different order; the bound grows with
+                        // the number of sites (long histories), a lost or doubled site is off by far more
+                        let tol = if proj { 1e-9 * (recs.len() as f64 / 100.0).max(1.0) } else { 0.0 };
+                        if recs.len() >= 512 {
+                            out.count(if proj { "long_history.projected" } else { "long_history.exact" }, 1);
+                        }
                         for k in 0..w.1.len() {
                             let (wv, av, bv, pv) = (f64::from_bits(w.1[k]), f64::from_bits(a.1[k]), f64::from_bits(b.1[k]), f64::from_bits(pr.1[k]));
                             if differs(wv, av + bv, tol) {
